@@ -115,14 +115,22 @@ def programs(tier: str) -> list:
             for iid, isrc in inner:
                 fillers = [ATOMS[i % len(ATOMS)] for i in range(n)]
                 fillers[s] = isrc
+                if (cid.startswith("fstr") or cid == "strcat_f") and (isrc.startswith("{") or isrc.endswith("}")):
+                    # a display directly inside a replacement field: "{{" is an escaped brace in Python, so the unspaced text is a
+                    # different (still valid) program; the display itself needs spaces
+                    progs.append((f"{cid}[{s}]<-{iid}~esc", "expr", fill(tpl, fillers)))
+                    fillers[s] = " " + isrc + " "
                 progs.append((f"{cid}[{s}]<-{iid}", "expr", fill(tpl, fillers)))
     # statements: expression slots get one plain and (thorough) a few structured expressions, blocks get simple bodies or another compound statement
-    exprs_for_stmt = ["a", "a + 1"] if tier == "quick" else ["a", "a + 1", "f(a, k=1)", "lambda q, r=2: q", "[q for q in a]", 'f"{a}"']
+    d1_by_src = {src: cid for cid, src in d1}
+    exprs_for_stmt = ["a", "a + 1"] if tier == "quick" else ["a", "a + 1", "f(a, 1)", "f(k=a)", "lambda q, r=2: a", "[a for q in 1]", 'f"{a}"']
     blocks1 = ["    pass"]
     for sid, tpl in STMT:
         for e in exprs_for_stmt:
             for b in blocks1:
-                progs.append((sid + (":" + e if e != "a" else ""), "stmt", tpl.replace("{e}", e).replace("{b}", b)))
+                # the id names the embedded depth-1 expression construct (so that a failure can be attributed to it)
+                pid = sid if e == "a" else (f"{sid}[0]<-{d1_by_src[e]}" if e in d1_by_src else sid + ":" + e)
+                progs.append((pid, "stmt", tpl.replace("{e}", e).replace("{b}", b)))
     # block depth 2: every compound statement inside every block slot of every compound statement
     compound = [(sid, tpl) for sid, tpl in STMT if "{b}" in tpl]
     inner_c = compound if tier != "quick" else compound[::3]
@@ -254,6 +262,9 @@ def work(item):
 
 def culprit(pid: str, bad_d1: set) -> str:
     """the depth-1 construct a failing program is attributed to (outer first, then inner)"""
+    if pid.endswith("~esc"):
+        # the program contains escaped braces next to a replacement field: the construct 'fstr_braces'
+        return "fstr_braces" if "fstr_braces" in bad_d1 else pid
     m = re.match(r"^(.*)\[(\d)\]<-(.*)$", pid)
     if m:
         outer, _, inner = m.groups()
